@@ -5,6 +5,9 @@
 (*   kind = "eval" : [prog, x, val]      val must equal Eval(prog, x)       *)
 (*   kind = "deriv": [prog, x, d, val]   val must equal DirDeriv(prog,x,d)  *)
 (*   kind = "adj"  : [prog, x, val]      val must equal AdjMatOf(prog) * x  *)
+(*   kind = "inv"  : [prog, x, val]      val = prog.inverse(x) observed:    *)
+(*                   Eval(prog, val) must equal x (no matrix inverse is     *)
+(*                   needed in the specification)                           *)
 (* Total: a rejected event is printed and validation continues.             *)
 (***************************************************************************)
 EXTENDS OpSem, TLC, Json, IOUtils
@@ -20,6 +23,7 @@ Expected(e) ==
 Clauses(e) ==
   IF e.err # "" THEN {<<"raised", e.err>>}
   ELSE IF ~WellTyped(e.prog) THEN {<<"ill-typed-program", "">>}
+  ELSE IF e.kind = "inv" THEN (IF Eval(e.prog, e.val) # e.x THEN {<<"value-inv", e.mode>>} ELSE {})
   ELSE IF e.val # Expected(e) THEN {<<"value-" \o e.kind, e.mode>>} ELSE {}
 
 TraceInit == l = 1
